@@ -19,7 +19,7 @@ func init() {
 		Doc: "policy switch, evaluated for 3 error classes x 3 policies: sentinels exit 0 / return; errors exit 2 / panic(err) / return; exiter and os.Exit appear nowhere else", Run: cmd2})
 	register(&Rule{ID: "CMD-3", Props: []string{"C14", "C17"}, Floor: 4,
 		Doc: "help first: validation and hooks are unreachable once the help scan found a token; the help branch prints the long help, signals the sentinel and returns nil", Run: cmd3})
-	register(&Rule{ID: "CMD-4", Props: []string{"C14", "C09"}, Floor: 3,
+	register(&Rule{ID: "CMD-4", Props: []string{"C14", "C09", "C10", "C03"}, Floor: 3,
 		Doc: "help scan: index of the first -h/--help, -1 at the first `--` (unconditionally, inside the loop) or at the end", Run: cmd4})
 	register(&Rule{ID: "CMD-5", Props: []string{"C14", "C04"}, Floor: 4,
 		Doc: "version: tested before anything else, only on args[0] under a length guard against the declared version option's names; prints, signals the sentinel, returns nil", Run: cmd5})
@@ -1086,6 +1086,7 @@ func cmd4(c *Ctx) {
 	// found different from -h and from --help
 	{
 		cutFor := map[string]map[ir.Edge]bool{"-h": {}, "--help": {}}
+		setSkipped := false
 		ir.Instrs(fn, func(in ssa.Instruction) {
 			bo, ok := in.(*ssa.BinOp)
 			if !ok || !(bo.Op == token.EQL || bo.Op == token.NEQ) {
@@ -1110,8 +1111,13 @@ func cmd4(c *Ctx) {
 			}
 			// compared with each element of a literal set: passing on means the inner loop was exhausted
 			if sl, h, isR := rangeElemHeader(other); isR {
-				_, _, exit := loopBody(h)
+				_, ientry, exit := loopBody(h)
 				if exit == nil {
+					return
+				}
+				// ... provided no element of the set is passed over without the comparison
+				if ientry != nil && ientry != bo.Block() && ir.Reach(ientry, map[*ssa.BasicBlock]bool{bo.Block(): true}, nil)[h] {
+					setSkipped = true
 					return
 				}
 				for _, sp := range c.stringSet(sl) {
@@ -1122,6 +1128,9 @@ func cmd4(c *Ctx) {
 			}
 		})
 		var missing []string
+		if setSkipped {
+			missing = append(missing, "an element of the set {-h, --help} can be passed over without being compared with the token")
+		}
 		for _, sp := range []string{"-h", "--help"} {
 			if len(cutFor[sp]) == 0 {
 				missing = append(missing, sp+" is never compared")
@@ -1140,6 +1149,19 @@ func cmd4(c *Ctx) {
 		}
 		sort.Strings(missing)
 		reportP(c, key+":every-token-tested", fn.Pos(), missing, "a token is passed over only after it was found different from -h and --help")
+		// the verdict is a function of the vector alone: the parent that found a help token behind the
+		// level split enters the child without flow steps, relying on the child's scan finding the same
+		// token (a scan that consults the command's own declarations can disagree: nil step dereference)
+		if fn.Signature.Recv() != nil && len(fn.Params) > 0 {
+			reads := false
+			for _, u := range *fn.Params[0].Referrers() {
+				if _, isDbg := u.(*ssa.DebugRef); !isDbg {
+					reads = true
+				}
+			}
+			c.Check(!reads, key+":vector-only", fn.Pos(), "the help scan reads nothing of the command it is called on: every level finds the same help token",
+				"the help scan consults the command it is called on: a parent and the child it enters for help can disagree on whether help was requested (the child is entered without flow steps)")
+		}
 	}
 	// (c) -1 at the end
 	okEnd := false
@@ -2541,6 +2563,27 @@ func cmd10(c *Ctx) {
 	}
 	c.Mark(fn)
 	recv := fn.Params[0]
+	// the root is initialised (its spec defaulted and compiled) before anything is routed or printed:
+	// in Run every way to the root's parse goes through doInit
+	if run, rootParse := c.fnOpt("", "Cli.Run"), c.fnOpt("", "Cli.parse"); run != nil && rootParse != nil {
+		c.Mark(run)
+		okInit, nCalls := true, 0
+		for _, cv := range callsTo(run, rootParse) {
+			nCalls++
+			if !ir.MustPassBefore(cv, func(in ssa.Instruction) bool {
+				call, isCall := in.(*ssa.Call)
+				return isCall && ir.Static(call) == fn
+			}) {
+				okInit = false
+			}
+		}
+		if nCalls > 0 {
+			mk := len(c.Obs)
+			c.Check(okInit, Q(run)+":init-first", run.Pos(), "every way to the root level's parse passes doInit (the usage line and the automaton come from the defaulted spec)",
+				"the root level can be parsed (help, version or routing) without having been initialised: its usage line lacks the default spec")
+			c.Scope(mk, "C16", "C04", "C01")
+		}
+	}
 	// writers of Spec
 	var writers []string
 	for _, f := range c.ClosureFuncsDeep() {
